@@ -458,7 +458,7 @@ func c03r3(c *RC) {
 			}
 		}
 	}
-	c.Floor("terminal writes of Task.state", n, 6)
+	c.Floor("terminal writes of Task.state", n, 4)
 }
 
 // c03lockHeldAt: on every path from entry to loc, the last lock event on task
